@@ -316,6 +316,7 @@ def run(rep, facts, tier):
     rule_19_8(rep, fx)
     rule_19_9(rep, fx)
     rule_19_10(rep, fx)
+    rule_19_11(rep, fx)
 
     # ------------------------------------------------------------ R19.6 crossed roles (shared lint, rdv/swaplint.py)
     from rdv import swaplint
@@ -828,3 +829,41 @@ def rule_19_10(rep, fx):
                   'the initiator uses, no common shared secret exists and two genuine participants cannot authenticate' % (makers[c], (want or '?').rsplit('::', 1)[-1]), b.where())
     if n < 2:
         raise CheckBroken('R19.10: begin_handshake_reply generates %d kinds of DH keys, expected 2' % n)
+
+
+def rule_19_11(rep, fx):
+    """A handshake token is read as a request / reply / final message only if it says so itself (added after seed C19g: a comparison that dropped the `+Req` / `+Reply` /
+    `+Final` suffix let a relabelled final message through; the kind is not covered by any signature, so only this comparison ties a message to its step)."""
+    rep.rule('R19.11', 'message kind is checked: BuiltinHandshakeMessageToken::extract_request / extract_reply / extract_final return Ok only behind the equal edge of a whole-value '
+                       '==/!= between the class_id of the token and HANDSHAKE_REQUEST / REPLY / FINAL_CLASS_ID respectively (no helper that compares a part of it)')
+    n = 0
+    for kind in ('request', 'reply', 'final'):
+        bs = [b for b in fx.bodies if b.name == 'extract_' + kind and 'BuiltinHandshakeMessageToken' in b.key and b.kind in ('fn', 'assoc_fn')]
+        if len(bs) != 1:
+            raise CheckBroken('R19.11: extract_%s not found' % kind)
+        b = bs[0]
+        n += 1
+        rep.analysed(b)
+        og = Origins(b, summaries=True)
+        P = Pos(b)
+        want = 'HANDSHAKE_%s_CLASS_ID' % kind.upper()
+        guard = []
+        for s_, t_, c, lab in switch_edges(b, fx, og):
+            if c[0] == 'call' and c[1].rsplit('::', 1)[-1] in ('eq', 'ne') and len(c[2]) == 2:
+                x, y = c[2]
+                def is_cid(t):
+                    return term_has(t, lambda z: z[0] == 'field' and z[1] == 'class_id' and term_has(z, lambda w: w == ('param', 1))) and \
+                        not term_has(t, lambda z: z[0] == 'call' and z[1].rsplit('::', 1)[-1] not in ('as_ref', 'deref', 'as_bytes', 'as_slice', 'borrow', 'clone', 'as_str'))
+                def is_const(t):
+                    return term_has(t, lambda z: z[0] == 'const' and str(z[-1]).endswith('::' + want)) and \
+                        not term_has(t, lambda z: z[0] == 'call' and z[1].rsplit('::', 1)[-1] not in ('as_ref', 'deref', 'as_bytes', 'as_slice', 'borrow', 'clone', 'as_str'))
+                if (is_cid(x) and is_const(y)) or (is_cid(y) and is_const(x)):
+                    m = c[1].rsplit('::', 1)[-1]
+                    if (m == 'eq' and lab is True) or (m == 'ne' and lab is False):
+                        guard.append((s_, t_))
+        oks = _ok_results(b)
+        ok = bool(guard) and bool(oks) and all(P.every_path_passes(None, o, via_edges=guard, from_entry=True) for o in oks)
+        rep.check(ok, 'R19.11', 'extract_%s/class-id' % kind, 'Ok only when class_id == %s' % want,
+                  'BuiltinHandshakeMessageToken::extract_%s can return Ok for a token whose class_id was not found equal to %s as a whole: a message of another kind (or a relabelled one) '
+                  'is processed as a %s message; nothing else binds a message to its step of the handshake' % (kind, want, kind), b.where())
+    rep.floor('R19.11', n, 3, 'handshake token extractors')
